@@ -112,10 +112,26 @@ def module_regex(modules):
     mods = sorted({m for m in modules if m}, key=lambda m: (-m.count('::'), -len(m), m))
     if not mods:
         return None
-    return re.compile(r'(?<![\w:])(?:' + '|'.join(re.escape(m) for m in mods) + r')::(?=[A-Za-z_<{])')
+    return re.compile(r'(?<![\w:])(' + '|'.join(re.escape(m) for m in mods) + r')::(?=([A-Za-z_]\w*)|[<{])')
 
 
-def canonicalise_text(text, modules):
+def colliding_names(raw, modules):
+    """item names defined in more than one local module (two private `Violation` enums, two `helper` functions): these keep
+    their module-qualified names, everything else becomes module-free"""
+    rx = module_regex(modules)
+    if rx is None:
+        return set()
+    where = {}
+    paths = [b.get('def', '') for b in raw.get('bodies', [])] + [a.get('path', '') for a in raw.get('adts', [])] + \
+            [s.get('path', '') for s in raw.get('statics', [])]
+    for p in paths:
+        m = rx.match(p)
+        if m and m.group(2) and m.end() == len(m.group(0)) + 0:
+            where.setdefault(m.group(2), set()).add(m.group(1))
+    return {n for n, ms in where.items() if len(ms) > 1}
+
+
+def canonicalise_text(text, modules, keep=frozenset()):
     """Items are named independently of the module layout: `interp1d::strategies::cubic_spline::CubicSpline::thomas`
     becomes `CubicSpline::thomas`.  Moving code between (private) modules, with the public paths kept by re-exports,
     therefore does not change any name the checks see.  Two items that collapse to one name become ambiguous and are
@@ -123,7 +139,7 @@ def canonicalise_text(text, modules):
     import re
     rx = module_regex(modules)
     if rx:
-        text = rx.sub('', text)
+        text = rx.sub(lambda m: m.group(0) if (m.group(2) in keep) else '', text)
     # an inherent impl placed in another module than its type prints as `<impl Type<T>>::f`; same-module form is `Type::<T>::f`
     gen = r'<(?:[^<>]|<(?:[^<>]|<[^<>]*>)*>)*>'
     text = re.sub(r'(?<![\w:])<impl ([A-Za-z_]\w*)(' + gen + r')?>::',
@@ -136,8 +152,10 @@ def _load_canonical(path):
         text = fh.read()
     raw = json.loads(text)
     modules = [m['path'] for m in raw.get('modules', [])]
-    f = json.loads(canonicalise_text(text, modules))
+    keep = colliding_names(raw, modules)
+    f = json.loads(canonicalise_text(text, modules, keep))
     f['_modules'] = modules
+    f['_module_qualified'] = sorted(keep)
     return f
 
 
